@@ -136,6 +136,83 @@ func (u *Unit) PartialOps(fn *ssa.Function) []PartialOp {
 	return out
 }
 
+// indexBoundedBy decides whether the index used on an arrow schema/batch
+// accessor is bounded by the size of the same object. It recognises a loop
+// variable compared against NumFields/NumCols/len(Fields) of that object, an
+// `idx < n` guard where n is such a size, and a dominating guard that equates
+// the loop bound with the indexed object's field count.
+func (u *Unit) indexBoundedBy(at ssa.Instruction, recv, idx ssa.Value) (bool, string) {
+	root := func(v ssa.Value) string {
+		d := u.Describe(v)
+		// Schema(batch) → batch ; targetSchema → targetSchema
+		if i := strings.LastIndex(d, "("); i >= 0 && strings.HasSuffix(d, ")") {
+			return strings.TrimSuffix(d[i+1:], ")")
+		}
+		return d
+	}
+	obj := root(recv)
+	sizeOf := func(d string) bool {
+		return (strings.Contains(d, "NumFields(") || strings.Contains(d, "NumCols(") || strings.Contains(d, "Fields(")) && strings.Contains(d, obj)
+	}
+	// strip conversions
+	v := idx
+	for {
+		if cv, ok := v.(*ssa.Convert); ok {
+			v = cv.X
+			continue
+		}
+		break
+	}
+	var bounds []string
+	collect := func(x ssa.Value) {
+		if x.Referrers() == nil {
+			return
+		}
+		for _, ref := range *x.Referrers() {
+			if b, ok := ref.(*ssa.BinOp); ok && b.X == x {
+				switch b.Op.String() {
+				case "<", "<=", "!=":
+					bounds = append(bounds, u.Describe(b.Y))
+				}
+			}
+		}
+	}
+	collect(v)
+	if cv, ok := idx.(*ssa.Convert); ok {
+		collect(cv)
+	}
+	// `range n` loops: the phi's increment / comparison may be on a sibling value
+	if phi, ok := v.(*ssa.Phi); ok {
+		for _, e := range phi.Edges {
+			collect(e)
+		}
+	}
+	for _, b := range bounds {
+		if sizeOf(b) {
+			return true, "loop/guard bound " + b
+		}
+	}
+	// guards at the call relating sizes
+	for _, g := range u.GuardStrings(at) {
+		if sizeOf(g) && (strings.Contains(g, " == ") || strings.Contains(g, " < ") || strings.Contains(g, " <= ")) {
+			for _, b := range bounds {
+				// the guard mentions the loop bound's object too, or bounds idx directly
+				bd := b
+				if i := strings.LastIndex(bd, "("); i >= 0 {
+					bd = strings.TrimSuffix(bd[i+1:], ")")
+				}
+				if strings.Contains(g, bd) {
+					return true, "guard " + g
+				}
+			}
+			if strings.Contains(g, u.Describe(v)) {
+				return true, "guard " + g
+			}
+		}
+	}
+	return false, "bounds {" + strings.Join(bounds, "; ") + "}"
+}
+
 func recvType(c *ssa.CallCommon) types.Type {
 	if c.IsInvoke() {
 		return c.Value.Type()
